@@ -87,6 +87,18 @@ where
         shard.find(hash, |p| key.equivalent(p.key())).cloned()
     }
 
+    /// Forget the piece kept for `key`, if any: the entry is being deleted, so its queued write must not be served.
+    pub fn remove<Q>(&self, hash: u64, key: &Q)
+    where
+        Q: Hash + equivalent::Equivalent<K> + ?Sized,
+    {
+        let shard = self.shard(hash);
+        let mut shard = shard.write();
+        if let Ok(o) = shard.find_entry(hash, |p| key.equivalent(p.key())) {
+            o.remove();
+        }
+    }
+
     fn shard(&self, hash: u64) -> Arc<RwLock<Shard<K, V, P>>> {
         let index = (hash as usize) % self.inner.shards.len();
         self.inner.shards[index].clone()
